@@ -26,7 +26,8 @@ def floors(tier):
     q = tier == "quick"
     return {"evaluations": 250 if q else 4000, "distinct_nontrivial": 80 if q else 1500, "rotations": 1500 if q else 25000,
             "kind:corpus": 10 if q else 80, "kind:synth": 120 if q else 1200, "kind:stl": 60 if q else 700, "kind:curated": 40 if q else 600,
-            "kernels_with_cycles": 150 if q else 2500, "kind:long": 3 if q else 30}
+            "kernels_with_cycles": 150 if q else 2500, "kind:long": 3 if q else 30,
+            "mixed_addressing_kernels": 6 if q else 60}
 
 
 def plan(tier, seed):
@@ -138,10 +139,28 @@ def run_synth(spec, R):
                 os.unlink(os.path.join(d, fn))
 
 
-def gen_case(isa, vocab, path, ipath, arch, mseed, kseed, R):
+def mixed_addressing_kernel(krng):
+    """AArch64: one load mnemonic and register class used with plain/offset addressing (its result on a memory-carried cycle)
+    and with write-back addressing (a streaming load) in the same loop body"""
+    w = krng.choice(["d", "d", "q"])
+    a, b = krng.sample(range(0, 32), 2)
+    b1, b2 = krng.sample(range(0, 29), 2)
+    sz = 8 if w == "d" else 16
+    op = "fadd d%d, d%d, d%d" % (a, a, b) if w == "d" else "fadd v%d.2d, v%d.2d, v%d.2d" % (a, a, b)
+    stream = krng.choice(["ldr %s%d, [x%d], #%d" % (w, b, b2, sz), "ldr %s%d, [x%d, #%d]!" % (w, b, b2, sz)])
+    body = ["ldr %s%d, [x%d]" % (w, a, b1), op, "str %s%d, [x%d, #%d]" % (w, a, b1, sz), "add x%d, x%d, #%d" % (b1, b1, sz)]
+    body.insert(krng.choice([0, 2, 4]), stream)
+    return [{"text": t} for t in body]
+
+
+def gen_case(isa, vocab, path, ipath, arch, mseed, kseed, R, shape=None):
     krng = random.Random(kseed)
     curated = arch is not None
-    if krng.random() < 0.4:
+    if shape == "mixed-addressing":
+        kernel_ast = mixed_addressing_kernel(krng)
+        kind = "curated"
+        R.count("mixed_addressing_kernels")
+    elif krng.random() < 0.4:
         kernel_ast, _, _ = c06.stl_kernel(krng, isa, c06.c06_vocab(isa) if curated else vocab, curated=curated)
         kind = "stl"
     else:
@@ -153,6 +172,8 @@ def gen_case(isa, vocab, path, ipath, arch, mseed, kseed, R):
     lines = [i["text"] for i in kernel_ast]
     case = {"kind": kind, "gen": "curated" if curated else "synth", "isa": isa, "arch": arch, "model_seed": mseed, "kernel_seed": kseed,
             "kernel": "\n".join(lines), "flags": flags}
+    if shape:
+        case["shape"] = shape
     check_rotations(kind, isa, path, ipath, arch, lines, flags, R, case)
 
 
@@ -190,6 +211,10 @@ def run_curated(spec, R):
     vocab = D.curated_vocab(isa)
     for k in range(spec["kernels"]):
         gen_case(isa, vocab, None, None, arch, None, rng.getrandbits(48), R)
+    if isa == "aarch64":
+        # fixed-shape class, so that it does not depend on what the random kernels happen to combine
+        for k in range(max(3, spec["kernels"] // 8)):
+            gen_case(isa, vocab, None, None, arch, None, rng.getrandbits(48), R, shape="mixed-addressing")
 
 
 def run_shard(spec, R):
@@ -225,4 +250,4 @@ def replay(case, R):
             gen_case(isa, vocab, path, ipath, None, case["model_seed"], case["kernel_seed"], R)
     else:
         isa = case["isa"]
-        gen_case(isa, D.curated_vocab(isa), None, None, case["arch"], None, case["kernel_seed"], R)
+        gen_case(isa, D.curated_vocab(isa), None, None, case["arch"], None, case["kernel_seed"], R, shape=case.get("shape"))
